@@ -164,48 +164,87 @@ Qed.
 (* ------------------------------------------------------------------ *)
 (* the reads suite: what the conformance check evaluates               *)
 
+Definition whole_read (o : op) : bool :=
+  match o with OIter | OLen | ON3 | OContains _ => true | _ => false end.
+
 Lemma r_ok_model g o : is_read o = true ->
+  (broken g HEAD = true -> whole_read o = false) ->
   r_ok g o (snd (c_step HEAD {| gr := g; fresh := 1000%N |} o)) = true.
 Proof.
-  intros Hr. unfold r_ok.
+  intros Hr Hb. unfold r_ok.
   assert (Hc : cyclic_iter g HEAD = true -> snd (c_items g HEAD) = ICycle).
   { unfold cyclic_iter, c_items. intros H.
     destruct (cyclic_f true (fuel_of g) g HEAD [HEAD]) as [[|]|] eqn:E; try discriminate.
     apply (cyc_items g _ _ [HEAD] E). }
+  assert (Hnb : whole_read o = true -> broken g HEAD = false).
+  { intros H. destruct (broken g HEAD); auto. specialize (Hb eq_refl). congruence. }
   destruct o; try discriminate; cbn [c_step snd gr].
   - (* c[i] *) rewrite andb_true_r. apply negb_true_iff.
     pose proof (getitem_total g HEAD i). destruct (c_getitem g HEAD i); auto; congruence.
-  - (* len *) pose proof (len_total g HEAD) as Ht. unfold c_len in *.
+  - (* len *) rewrite (Hnb eq_refl), orb_false_r. pose proof (len_total g HEAD) as Ht. unfold c_len in *.
     destruct (cyclic_iter g HEAD).
     + rewrite (surjective_pairing (c_items g HEAD)), (Hc eq_refl). reflexivity.
     + rewrite andb_true_r. apply negb_true_iff.
       destruct (c_items g HEAD) as [ys e]. destruct e; simpl in *; congruence.
-  - (* list(c) *) pose proof (iter_total g HEAD) as Ht. unfold c_iter in *.
+  - (* list(c) *) rewrite (Hnb eq_refl), orb_false_r. pose proof (iter_total g HEAD) as Ht. unfold c_iter in *.
     destruct (cyclic_iter g HEAD).
     + rewrite (surjective_pairing (c_items g HEAD)), (Hc eq_refl). reflexivity.
     + rewrite andb_true_r. apply negb_true_iff.
       destruct (c_items g HEAD) as [ys e]. destruct e; simpl in *; congruence.
   - (* index *) rewrite andb_true_r. apply negb_true_iff.
     pose proof (index_total g HEAD v). destruct (c_index g HEAD v); auto; congruence.
-  - (* x in c *) rewrite andb_true_r. apply negb_true_iff.
+  - (* x in c *) rewrite (Hnb eq_refl), andb_true_r. apply negb_true_iff.
     pose proof (contains_total g HEAD v). destruct (c_contains g HEAD v); auto; congruence.
-  - (* n3() *) pose proof (iter_total g HEAD) as Ht. unfold c_iter in *.
+  - (* n3() *) rewrite (Hnb eq_refl), orb_false_r. pose proof (iter_total g HEAD) as Ht. unfold c_iter in *.
     destruct (cyclic_iter g HEAD).
     + rewrite (surjective_pairing (c_items g HEAD)), (Hc eq_refl). reflexivity.
     + rewrite andb_true_r. apply negb_true_iff.
       destruct (c_items g HEAD) as [ys e]. destruct e; simpl in *; congruence.
 Qed.
 
-Lemma r_run_model g : forall ops, forallb is_read ops = true ->
+Lemma r_run_model g ops0 : forall ops, incl ops ops0 -> forallb is_read ops = true ->
+  (broken g HEAD = true -> existsb whole_read ops0 = false) ->
   r_run g ops (map (fun o => snd (c_step HEAD {| gr := g; fresh := 1000%N |} o)) ops) = true.
 Proof.
-  induction ops as [|o r IH]; intros Hr; [reflexivity|].
+  induction ops as [|o r IH]; intros Hi Hr Hk; [reflexivity|].
   cbn [map r_run]. cbn [forallb] in Hr. apply andb_true_iff in Hr. destruct Hr as [R1 R2].
-  rewrite (r_ok_model g o R1). now apply IH.
+  rewrite (r_ok_model g o R1).
+  - apply IH; auto. intros x Hx. apply Hi. now right.
+  - intros Hb. specialize (Hk Hb). destruct (whole_read o) eqn:E; auto.
+    assert (Hx : existsb whole_read ops0 = true).
+    { apply existsb_exists. exists o. split; auto. apply Hi. now left. }
+    congruence.
 Qed.
 
-Lemma r_spec_model c : r_wfb c = true -> r_spec c (r_model c) = true.
-Proof. intros Hw. unfold r_spec, r_model. now apply r_run_model. Qed.
+Lemma r_spec_model c : r_wfb c = true -> r_kf c = 0%N -> r_spec c (r_model c) = true.
+Proof.
+  intros Hw Hk. unfold r_spec, r_model. apply r_run_model with (ops0 := r_ops c); auto.
+  - apply incl_refl.
+  - intros Hb. unfold r_kf in Hk. rewrite Hb in Hk. cbn [andb] in Hk.
+    change (existsb (fun o => match o with OIter | OLen | ON3 | OContains _ => true | _ => false end) (r_ops c))
+      with (existsb whole_read (r_ops c)) in Hk.
+    destruct (existsb whole_read (r_ops c)); [discriminate|reflexivity].
+Qed.
+
+(* which reads raise on a cyclic chain: the ones that have to walk the whole chain *)
+Lemma cyclic_reads_exact g head : cyclic_iter g head = true ->
+  c_iter g head = RExc ValueError /\ c_len g head = RExc ValueError /\
+  (forall v, c_contains g head v = RBool true \/ c_contains g head v = RExc ValueError) /\
+  (forall i, (i < 0)%Z -> c_getitem g head i = RExc ValueError) /\
+  (forall v, g_has (None, Some FIRST, Some v) g = false -> is_exc (c_index g head v) = true).
+Proof.
+  intros H. unfold cyclic_iter in H.
+  destruct (cyclic_f true (fuel_of g) g head [head]) as [[|]|] eqn:E; try discriminate.
+  assert (Hc : snd (c_items g head) = ICycle) by exact (cyc_items g _ _ [head] E).
+  assert (Hl : c_len g head = RExc ValueError).
+  { unfold c_len. destruct (c_items g head) as [ys e]. cbn [snd] in Hc. now rewrite Hc. }
+  split; [|split; [exact Hl|split; [|split]]].
+  - unfold c_iter. destruct (c_items g head) as [ys e]. cbn [snd] in Hc. now rewrite Hc.
+  - intros v. unfold c_contains. destruct (c_items g head) as [ys e]. cbn [snd] in Hc. rewrite Hc.
+    destruct (memb N.eqb v ys); auto.
+  - intros i Hi. unfold c_getitem, c_norm. destruct (Z.ltb_spec i 0); [|lia]. now rewrite Hl.
+  - intros v Hv. now apply index_absent_raises.
+Qed.
 
 Lemma cyclic_reads_raise g head : cyclic_iter g head = true ->
   c_iter g head = RExc ValueError /\ c_len g head = RExc ValueError.
